@@ -270,6 +270,11 @@ def run_point(g, n, rnd, force_seg=None):
             val = rv[0] if fop == "gets_many" and isinstance(rv, tuple) else rv
             items.append([ki] + classify(val, rk))
         evs.append({"e": "fetch", "keys": [keyrec(k) for k in order], "items": items})
+        # the same kind of collection with nothing in it: nothing requested, nothing returned
+        empty = {"list": list, "tuple": tuple, "set": set, "dictview": lambda x: dict.fromkeys(x).keys(), "iter": iter}[coll]([])
+        begin()
+        res0 = getattr(cl, fop)(empty)
+        evs.append({"e": "fetch", "keys": [], "items": [[0, 0, False, False] for _ in (res0 or {})]})
     return {"h": {"unicode": unicode, "prefix": list(prefix)}, "ev": evs, "g": g, "kind": kind}
 
 
